@@ -193,3 +193,15 @@ proofs/ValidateProofs.vos proofs/ValidateProofs.vok proofs/ValidateProofs.requir
 properties/C02.vo properties/C02.glob properties/C02.v.beautified properties/C02.required_vo: properties/C02.v gen/Params.vo model/Bytes.vo model/Crc32c.vo model/Id.vo model/Sha1.vo model/Server.vo model/Validate.vo proofs/ValidateProofs.vo
 properties/C02.vio: properties/C02.v gen/Params.vio model/Bytes.vio model/Crc32c.vio model/Id.vio model/Sha1.vio model/Server.vio model/Validate.vio proofs/ValidateProofs.vio
 properties/C02.vos properties/C02.vok properties/C02.required_vos: properties/C02.v gen/Params.vos model/Bytes.vos model/Crc32c.vos model/Id.vos model/Sha1.vos model/Server.vos model/Validate.vos proofs/ValidateProofs.vos
+model/Maint.vo model/Maint.glob model/Maint.v.beautified model/Maint.required_vo: model/Maint.v gen/Params.vo model/Bytes.vo model/Crc32c.vo model/Id.vo model/Node.vo model/BSearch.vo model/Closest.vo model/RTable.vo
+model/Maint.vio: model/Maint.v gen/Params.vio model/Bytes.vio model/Crc32c.vio model/Id.vio model/Node.vio model/BSearch.vio model/Closest.vio model/RTable.vio
+model/Maint.vos model/Maint.vok model/Maint.required_vos: model/Maint.v gen/Params.vos model/Bytes.vos model/Crc32c.vos model/Id.vos model/Node.vos model/BSearch.vos model/Closest.vos model/RTable.vos
+model/Check14.vo model/Check14.glob model/Check14.v.beautified model/Check14.required_vo: model/Check14.v gen/Params.vo model/Bytes.vo model/Crc32c.vo model/Id.vo model/Node.vo model/BSearch.vo model/Closest.vo model/RTable.vo model/Maint.vo
+model/Check14.vio: model/Check14.v gen/Params.vio model/Bytes.vio model/Crc32c.vio model/Id.vio model/Node.vio model/BSearch.vio model/Closest.vio model/RTable.vio model/Maint.vio
+model/Check14.vos model/Check14.vok model/Check14.required_vos: model/Check14.v gen/Params.vos model/Bytes.vos model/Crc32c.vos model/Id.vos model/Node.vos model/BSearch.vos model/Closest.vos model/RTable.vos model/Maint.vos
+proofs/MaintProofs.vo proofs/MaintProofs.glob proofs/MaintProofs.v.beautified proofs/MaintProofs.required_vo: proofs/MaintProofs.v gen/Params.vo model/Bytes.vo model/Crc32c.vo model/Id.vo model/Node.vo model/BSearch.vo model/Closest.vo model/RTable.vo model/Maint.vo proofs/RTableProofs.vo
+proofs/MaintProofs.vio: proofs/MaintProofs.v gen/Params.vio model/Bytes.vio model/Crc32c.vio model/Id.vio model/Node.vio model/BSearch.vio model/Closest.vio model/RTable.vio model/Maint.vio proofs/RTableProofs.vio
+proofs/MaintProofs.vos proofs/MaintProofs.vok proofs/MaintProofs.required_vos: proofs/MaintProofs.v gen/Params.vos model/Bytes.vos model/Crc32c.vos model/Id.vos model/Node.vos model/BSearch.vos model/Closest.vos model/RTable.vos model/Maint.vos proofs/RTableProofs.vos
+properties/C14.vo properties/C14.glob properties/C14.v.beautified properties/C14.required_vo: properties/C14.v gen/Params.vo model/Bytes.vo model/Crc32c.vo model/Id.vo model/Node.vo model/BSearch.vo model/Closest.vo model/RTable.vo model/Maint.vo proofs/RTableProofs.vo proofs/MaintProofs.vo
+properties/C14.vio: properties/C14.v gen/Params.vio model/Bytes.vio model/Crc32c.vio model/Id.vio model/Node.vio model/BSearch.vio model/Closest.vio model/RTable.vio model/Maint.vio proofs/RTableProofs.vio proofs/MaintProofs.vio
+properties/C14.vos properties/C14.vok properties/C14.required_vos: properties/C14.v gen/Params.vos model/Bytes.vos model/Crc32c.vos model/Id.vos model/Node.vos model/BSearch.vos model/Closest.vos model/RTable.vos model/Maint.vos proofs/RTableProofs.vos proofs/MaintProofs.vos
